@@ -174,3 +174,42 @@ def shared_trunk_linear_layer(S):
     S.ensure("grad-weight-shape-per-copy", gw.val.rank == 3 and gw.val.shape[0].size_term() == zint(Ic) and gw.val.shape[1].concrete() == o and gw.val.shape[2].concrete() == k)
     S.forall("grad-weight-is-g-transposed-times-input", gw, lambda q: zreal(gw.val.at(q)) == tsum.sum_term([Dim([zint(n)])], lambda r: zreal(G.val.at([q[0], r[0], q[1]])) * zreal(X.val.at([(0,), r[0], q[2]])), "sum"))
     S.ensure("grad-bias-shape", gb.val.rank == 1 and gb.val.shape[0].concrete() == o)
+
+
+@scenario("C09", [M + "trunknets.FCTrunkNet.__init__", M + "trunknets.FCTrunkNet.finalize", M + "trunknets.FCTrunkNet.forward", M + "trunknets.construct_FC_trunk_layers", M + "layers.TrunkLinear.forward", M + "layers.linear.forward"], configs=["hidden=(2,),neurons=4,d=2"], bounded="one hidden layer of width 2, 4 output neurons, output dimension 2, trunk variable x:1; numbers of functions and locations, weights and inputs symbolic")
+def fast_trunk_net_equals_the_plain_trunk_net_end_to_end(S):
+    """FCTrunkNet(trunk_input_copied=True) (TrunkLinear layers evaluating the first copy only) and
+    FCTrunkNet(trunk_input_copied=False) (plain nn.Linear layers) with THE SAME weights give the same feature tensor
+    [functions, locations, components, neurons] whenever the trunk input is the same for every function -- the
+    precondition under which the fast path is used -- and the features have the layout component*q + neuron."""
+    I = S.I
+    B, n = S.int("B", 1), S.int("n", 1)
+    xs = S.new(RN, "x", 1)
+    us = S.new(RN, "u", 2)
+    fast = S.new(M + "trunknets.FCTrunkNet", xs, hidden=(2,), trunk_input_copied=True)
+    plain = S.new(M + "trunknets.FCTrunkNet", xs, hidden=(2,), trunk_input_copied=False)
+    S.method(fast, "finalize", us, 4)
+    S.method(plain, "finalize", us, 4)
+    fl = [l for l in S.I.iterate(S.getattr(fast, "sequential")) if hasattr(l, "f") and "weight" in l.f]
+    pl = [l for l in S.I.iterate(S.getattr(plain, "sequential")) if hasattr(l, "f") and "weight" in l.f]
+    S.ensure("two-affine-layers-each", len(fl) == 2 and len(pl) == 2)
+    if not (len(fl) == 2 and len(pl) == 2):
+        return
+    for a, b in zip(fl, pl):
+        S.ensure("same-layer-shapes", [d.concrete() for d in a.f["weight"].val.shape] == [d.concrete() for d in b.f["weight"].val.shape])
+        # the same weights in both networks (the comparison is between the two evaluation strategies)
+        b.f["weight"].val = a.f["weight"].val
+        b.f["bias"].val = a.f["bias"].val
+    X0 = S.tensor("X0", [n, 1])
+    X = Tensor(STensor([core.dim_of(B), core.dim_of(n), Dim([])], lambda idx: zreal(X0.val.at([idx[1], ()])), "real"))
+    pts = S.new(POINTS, X, xs)
+    of = S.method(fast, "forward", pts).val
+    op = S.method(plain, "forward", S.new(POINTS, Tensor(X.val), xs)).val
+    ok = of.rank == 4 and op.rank == 4 and [d.concrete() for d in of.shape[2:]] == [2, 2] and [d.concrete() for d in op.shape[2:]] == [2, 2]
+    S.ensure("feature-tensor-functions-locations-components-neurons", ok)
+    if not ok:
+        return
+    S.ensure("one-feature-block-per-function-and-location", z3.And(op.shape[0].size_term() == zint(B), op.shape[1].size_term() == zint(n), of.shape[1].size_term() == zint(n)))
+    # the fast path may keep a broadcastable leading axis of size 1 or B
+    lead_one = of.shape[0].is_one
+    S.forall("fast-path-equals-plain-path", Tensor(op), lambda q: zreal(op.at(q)) == zreal(of.at([() if lead_one else q[0], q[1], q[2], q[3]])))
